@@ -138,7 +138,7 @@ def persistStep (st : PersistSt) (l : String) (ws : List String) : Option (List 
     | some t, some tt =>
       let p := paths st.b.s t
       let c := countF st.b.s (t + 1) t
-      let deps := showDeps (depsOf st.b.s t)
+      let deps := showDepsOf st.b.s t
       let sp := TT.paths st.b.nv tt
       some ([l, s!"= paths {p.1} {p.2} models {c.1} {c.2.1} depth {c.2.2} deps {deps}",
              s!"~ sat {TT.unsat st.b.nv tt} {TT.sat st.b.nv tt} paths {sp.1} {sp.2} depth {TT.depth st.b.nv tt} deps {showDeps (TT.deps st.b.nv tt)}",
